@@ -890,13 +890,7 @@ def _do(world, st, op):
         if node is None:
             return {'outcome': 'skip', 'skipped': 'no-node'}
 
-        for a in ('encoding', 'meta', 'meta_encoding', 'meta_format',
-                  'preamble', 'preamble_indent', 'diff', 'diff_type'):
-            try:
-                getattr(node, a)
-            except AttributeError:
-                pass
-
+        inspect_node(node)
         return {}
     elif name == 'generate_stats':
         node = resolve(tree, op.get('path', []))
@@ -908,6 +902,26 @@ def _do(world, st, op):
         return {}
     else:
         raise HarnessError('unknown dom op %r' % (name,))
+
+
+def inspect_node(node):
+    """Read every public attribute of a node (looking is not editing)."""
+    for a in sorted(dir(node)):
+        if not a.startswith('_'):
+            try:
+                getattr(node, a)
+            except AttributeError:
+                pass
+
+
+def inspect_tree(tree):
+    inspect_node(tree)
+
+    for c in list(getattr(tree, 'changes', ())):
+        inspect_node(c)
+
+        for f in list(getattr(c, 'files', ())):
+            inspect_node(f)
 
 
 def register():
